@@ -102,9 +102,9 @@ class Axis(GetSetDelAttrMixin, AbstractAxis):
     def __init__(self, values, name="", dtype=None, tol=None, **kwargs):
         self.name = name or getattr(values, "name", "")
         self._values = _check_axis_values(values, dtype)
-        if isinstance(values, np.ndarray) and np.may_share_memory(self._values, values):
-            # an Axis owns its labels: a later in-place edit of them must not reach the array (e.g. another
-            # Axis' values) it was built from, behind the back of that axis' cached state
+        if isinstance(values, (np.ndarray, Axis)) and np.may_share_memory(self._values, np.asarray(values)):
+            # an Axis owns its labels: a later in-place edit of them must not reach the array or the Axis
+            # it was built from, behind the back of that axis' cached state
             self._values = self._values.copy()
         self.name = name 
         self._tol = tol
